@@ -127,3 +127,5 @@ proof! {
 // can be `mem::forget`-ten instead of dropped) was tried for the two `tier=off` harnesses above:
 // both still time out at 1000 s - the cost is in the second table lookup with a symbolic
 // character, not in the drop glue.
+// `c09_first_occurrence_is_plain` with the probe sink is *worse* (34 GB): the symbolic character
+// written through the sink's byte loop, not the drop, dominates there.
